@@ -91,3 +91,38 @@ Section Run.
   Definition vrun (l : list vstep) : option outcome :=
     match vexec 16 l b_new 0 with VDone o => Some o | _ => None end.
 End Run.
+
+(* ---------------------------------------------------------------- the serializer side *)
+(* Serialize::serialize of src/impl_serde.rs as steps, in source order.  Every step that ends in `?`
+   returns the serializer's error at that point; against a serializer that does not fail (the one the
+   token stream of Serde.v describes) the steps run to the end. *)
+Inductive sstep : Type :=
+| SerTuple (v : string) (len_is_n : bool)   (* let mut v = serializer.serialize_tuple(N::USIZE)?;  len_is_n: the
+                                               argument is N::USIZE *)
+| SerForEach (el src v : string)            (* for el in src { v.serialize_element(el)?; } *)
+| SerEnd (v : string).                      (* v.end()  (the value of the function) *)
+
+(* state: the name of the open tuple serializer, the tokens so far, whether end() has been called *)
+Fixpoint srun (l : list sstep) (a : list Z) (open : option string) (out : list tok) (ended : bool)
+  : option (list tok) :=
+  match l with
+  | [] => if ended then Some out else None          (* falling off the end without `end()` is not the crate's code *)
+  | SerTuple v len_is_n :: r =>
+    match open with
+    | None => if len_is_n && negb ended then srun r a (Some v) (out ++ [TupleStart (zlen a)]) false else None
+    | Some _ => None
+    end
+  | SerForEach el src v :: r =>
+    match open with
+    | Some w => if String.eqb v w && String.eqb src "self" && negb ended
+                then srun r a open (ser_elems a out) false else None
+    | None => None
+    end
+  | SerEnd v :: r =>
+    match open with
+    | Some w => if String.eqb v w && negb ended then srun r a None (out ++ [TupleEnd]) true else None
+    | None => None
+    end
+  end.
+
+Definition ser_run (l : list sstep) (a : list Z) : option (list tok) := srun l a None [] false.
